@@ -1,9 +1,307 @@
-import Echse.Model.Stream
+/-
+  C03 — the merged event stream (`next_evmux`) is chronological, complete and, under a guard,
+  duplicate-free; a peek is pure.
+
+  Setting.  The sources are arbitrary sub-streams `ops : Ops σ` that *refine lists*
+  (`Refines ops abs I`: on the states satisfying `I`, `peek`/`pop` answer the head of `abs s`,
+  `pop` removes it, `peek` leaves it) of non-nul events in non-decreasing start order.  `listOps`
+  (the array stream) is such a source (`lists_are_sources`), and so is a mux (`collapse_refines`),
+  which covers nesting.  `m : Mux σ` is any state satisfying the representation invariant
+  `MuxInv` (a fresh `Mux.make subs` does: `fresh`), `rem abs m` the lists its sources still stand
+  for, a *script* a list of calls (`true` = pop, `false` = peek), `popped` the answers to its pops,
+  `nn` drops the nul answers.  "Identical" is `evEq` (same uid, same start; the duration is not
+  looked at by the C code), "twin" a second identical event.
+  Statements only; the proofs are in Echse/Lemmas/Stream*.lean.
+-/
+import Echse.Lemmas.Stream6
+import Echse.Lemmas.Stream7
 namespace C03
 open Echse.Stream
 
-/-- smoke (general statements replace this) -/
-theorem two_sources_collapse :
-    (muxNext listOps (Mux.make [[⟨5, 0, 1⟩, ⟨9, 0, 1⟩], [⟨5, 0, 1⟩, ⟨7, 0, 2⟩]]) true).1 = ⟨5, 0, 1⟩ := by decide
+/-! ### the order underneath -/
+
+/-- `evLt` is the strict part of the total preorder given by `key` … -/
+theorem lt_is_key (a b : Event) : evLt a b = true ↔ key a.from_ < key b.from_ := evLt_iff a b
+theorem lt_irrefl (a : Event) : evLt a a = false := evLt_irrefl a
+theorem lt_trans {a b c : Event} (h1 : evLt a b = true) (h2 : evLt b c = true) : evLt a c = true :=
+  evLt_trans h1 h2
+theorem incomparable_iff (a b : Event) :
+    (evLt a b = false ∧ evLt b a = false) ↔ key a.from_ = key b.from_ := evLt_incomp_iff a b
+/-- … and on 64-bit words simultaneous means same start. -/
+theorem key_injective {u v : Nat} (hu : u < 2^64) (hv : v < 2^64) (h : key u = key v) : u = v :=
+  key_inj hu hv h
+
+section
+variable {σ : Type} {ops : Ops σ} {abs : σ → List Event} {I : σ → Prop}
+
+/-! ### sources and states -/
+
+/-- the array stream over nul-free sorted lists is a source -/
+theorem lists_are_sources :
+    Refines listOps id (fun l => NonNul l ∧ Sorted l) ∧
+    ∀ l, (NonNul l ∧ Sorted l) → NonNul (id l) ∧ Sorted (id l) :=
+  ⟨listOps_refines _ (fun _ h => ⟨h.1.tail, h.2.tail⟩), fun _ h => h⟩
+
+/-- a freshly made mux satisfies the invariant and stands for the lists of its sources -/
+theorem fresh {subs : List σ} (h : ∀ s ∈ subs, I s) :
+    MuxInv abs I (Mux.make subs) ∧ rem abs (Mux.make subs) = subs.map abs :=
+  ⟨MuxInv.make h, rfl⟩
+
+/-- the invariant holds after any script, and the sources then stand for suffixes of their lists -/
+theorem invariant (R : Refines ops abs I) (hsrc : ∀ s, I s → NonNul (abs s) ∧ Sorted (abs s))
+    (m : Mux σ) (hm : MuxInv abs I m) (sc : List Bool) :
+    MuxInv abs I (after (muxOps ops) m sc) :=
+  (mux_script R (fun s hs => (hsrc s hs).1) sc m hm).2.2.1
+
+/-! ### 1. order -/
+
+/-- every answer is at most every event the sources still hold -/
+theorem best_le_remaining (R : Refines ops abs I) (hsrc : ∀ s, I s → NonNul (abs s) ∧ Sorted (abs s))
+    (m : Mux σ) (hm : MuxInv abs I m) (b : Bool) :
+    ∀ l ∈ rem abs m, ∀ x ∈ l, evLt x (muxNext ops m b).1 = false := by
+  rw [(mux_sim R (fun s hs => (hsrc s hs).1) m hm b).1]
+  exact lstep_min (rem_valid hsrc hm) b
+
+/-- the events returned by the pops of any script are in non-decreasing start order -/
+theorem order (R : Refines ops abs I) (hsrc : ∀ s, I s → NonNul (abs s) ∧ Sorted (abs s))
+    (m : Mux σ) (hm : MuxInv abs I m) (sc : List Bool) :
+    ((popped (muxOps ops) m sc).filter nn).Pairwise (fun a b => evLt b a = false) := by
+  rw [(mux_script R (fun s hs => (hsrc s hs).1) sc m hm).2.1]
+  exact lpopped_sorted sc _ (rem_valid hsrc hm)
+
+/-! ### 2. peek is pure -/
+
+/-- a peek and a pop answer the same event -/
+theorem peek_eq_pop (R : Refines ops abs I) (hsrc : ∀ s, I s → NonNul (abs s) ∧ Sorted (abs s))
+    (m : Mux σ) (hm : MuxInv abs I m) : (muxNext ops m false).1 = (muxNext ops m true).1 := by
+  rw [(mux_sim R (fun s hs => (hsrc s hs).1) m hm false).1,
+    (mux_sim R (fun s hs => (hsrc s hs).1) m hm true).1]
+  exact lstep_val _
+
+/-- (no guard) a peek answers what the next call, peek or pop, answers -/
+theorem peek_then_next (R : Refines ops abs I) (hsrc : ∀ s, I s → NonNul (abs s) ∧ Sorted (abs s))
+    (m : Mux σ) (hm : MuxInv abs I m) (b : Bool) :
+    (muxNext ops (muxNext ops m false).2 b).1 = (muxNext ops m false).1 := by
+  have hnn : ∀ s, I s → NonNul (abs s) := fun s hs => (hsrc s hs).1
+  obtain ⟨h1, h2, h3⟩ := mux_sim R hnn m hm false
+  rw [(mux_sim R hnn _ h2 b).1, h3, h1]
+  exact lstep_again_val (rem_valid hsrc hm) b
+
+/-- if no source lists an occurrence twice, the mux refines the reference merge `muxAbs` of
+what its sources still hold: in particular a peek changes nothing any later call returns -/
+theorem peek_pure (R : Refines ops abs I) (hsrc : ∀ s, I s → NonNul (abs s) ∧ Sorted (abs s)) :
+    Refines (muxOps ops) (muxAbs abs) (fun m => MuxInv abs I m ∧ ∀ l ∈ rem abs m, NoTwin l) :=
+  mux_refines_of R hsrc (fun ls => ∀ l ∈ ls, NoTwin l) (fun _ p => p)
+    (fun _ _ h p l' hl' => by
+      obtain ⟨l, hl, hs⟩ := h.mem l' hl'
+      exact (p l hl).suffix hs)
+
+/-- … so the pops of any script deliver that merge in order, then nul -/
+theorem popped_is_merge (R : Refines ops abs I) (hsrc : ∀ s, I s → NonNul (abs s) ∧ Sorted (abs s))
+    (m : Mux σ) (hm : MuxInv abs I m) (hn : ∀ l ∈ rem abs m, NoTwin l) (sc : List Bool) :
+    popped (muxOps ops) m sc = deliver (muxAbs abs m) (pops sc) :=
+  (peek_pure R hsrc).popped_eq sc m ⟨hm, hn⟩
+
+/-! ### 3. completeness, no invention, end of stream -/
+
+/-- a script with at least as many pops as the sources hold events delivers every event of
+every source — itself or an identical one -/
+theorem complete_no_loss (R : Refines ops abs I) (hsrc : ∀ s, I s → NonNul (abs s) ∧ Sorted (abs s))
+    (m : Mux σ) (hm : MuxInv abs I m) (sc : List Bool) (hsc : total (rem abs m) ≤ pops sc) :
+    ∀ l ∈ rem abs m, ∀ x ∈ l, ∃ e ∈ popped (muxOps ops) m sc, evEq e x = true := by
+  rw [(mux_script R (fun s hs => (hsrc s hs).1) sc m hm).2.1]
+  exact lpopped_complete sc _ hsc
+
+/-- every popped event is an event of some source -/
+theorem no_invention (R : Refines ops abs I) (hsrc : ∀ s, I s → NonNul (abs s) ∧ Sorted (abs s))
+    (m : Mux σ) (hm : MuxInv abs I m) (sc : List Bool) :
+    ∀ e ∈ popped (muxOps ops) m sc, e.isNul = false → ∃ l ∈ rem abs m, e ∈ l := by
+  rw [(mux_script R (fun s hs => (hsrc s hs).1) sc m hm).2.1]
+  exact lpopped_mem sc _
+
+/-- nul is answered exactly when all sources are exhausted -/
+theorem end_iff (R : Refines ops abs I) (hsrc : ∀ s, I s → NonNul (abs s) ∧ Sorted (abs s))
+    (m : Mux σ) (hm : MuxInv abs I m) (b : Bool) :
+    (muxNext ops m b).1.isNul = true ↔ ∀ l ∈ rem abs m, l = [] := by
+  rw [(mux_sim R (fun s hs => (hsrc s hs).1) m hm b).1]
+  exact lstep_nul_iff (rem_valid hsrc hm) b
+
+/-- once all sources are exhausted every call answers nul -/
+theorem dead (R : Refines ops abs I) (hsrc : ∀ s, I s → NonNul (abs s) ∧ Sorted (abs s))
+    (m : Mux σ) (hm : MuxInv abs I m) (h : ∀ l ∈ rem abs m, l = []) (sc : List Bool) :
+    answers (muxOps ops) m sc = List.replicate sc.length Event.nul := by
+  rw [(mux_script R (fun s hs => (hsrc s hs).1) sc m hm).1]
+  exact lanswers_dead sc _ h
+
+/-- after a nul answer every later call answers nul -/
+theorem dead_after (R : Refines ops abs I) (hsrc : ∀ s, I s → NonNul (abs s) ∧ Sorted (abs s))
+    (m : Mux σ) (hm : MuxInv abs I m) (b : Bool) (h : (muxNext ops m b).1.isNul = true) (sc : List Bool) :
+    answers (muxOps ops) (muxNext ops m b).2 sc = List.replicate sc.length Event.nul := by
+  have hnn : ∀ s, I s → NonNul (abs s) := fun s hs => (hsrc s hs).1
+  obtain ⟨_, h2, h3⟩ := mux_sim R hnn m hm b
+  refine dead R hsrc _ h2 ?_ sc
+  rw [h3, lstep_empty ((end_iff R hsrc m hm b).mp h)]
+  intro l hl; cases hl
+
+/-! ### 4. collapse -/
+
+/-- the guard: no source lists an occurrence twice, and an occurrence listed by two sources
+is in both of them the only event at its instant (`Lone`, by key) -/
+theorem guard_def (ls : List (List Event)) :
+    Guard ls ↔ (∀ l ∈ ls, NoTwin l) ∧
+      ls.Pairwise (fun l1 l2 => ∀ x ∈ l1, ∀ y ∈ l2, evEq x y = true →
+        (∀ z ∈ l1, key z.from_ = key x.from_ → z = x) ∧ (∀ z ∈ l2, key z.from_ = key y.from_ → z = y)) :=
+  Iff.rfl
+
+/-- it holds if every source holds one UID per instant and no twins (every rule / rdate stream
+of one event), starts being 64-bit words … -/
+theorem guard_of_one_uid_per_instant {ls : List (List Event)} (hw : ∀ l ∈ ls, ∀ e ∈ l, e.from_ < 2^64)
+    (h : ∀ l ∈ ls, NoTwin l ∧ ∀ a ∈ l, ∀ b ∈ l, a.from_ = b.from_ → a.oid = b.oid) : Guard ls :=
+  guard_of_oneUid hw h
+
+/-- … in the form with `Nodup`: if moreover no source lists one occurrence with two durations -/
+theorem guard_of_nodup_one_uid {ls : List (List Event)} (hw : ∀ l ∈ ls, ∀ e ∈ l, e.from_ < 2^64)
+    (h : ∀ l ∈ ls, l.Nodup ∧ ∀ a ∈ l, ∀ b ∈ l, a.from_ = b.from_ → a.oid = b.oid)
+    (hd : ∀ l ∈ ls, ∀ a ∈ l, ∀ b ∈ l, evEq a b = true → a = b) : Guard ls :=
+  guard_of_oneUid hw (oneUid_of_nodup h hd)
+
+/-- … and it holds if no occurrence is listed by two different sources and none twice by one
+(the condition that suffices at an outer level, where simultaneous UIDs do occur) -/
+theorem guard_of_disjoint_sources {ls : List (List Event)}
+    (h : (∀ l ∈ ls, NoTwin l) ∧ ls.Pairwise (fun l1 l2 => ∀ x ∈ l1, ∀ y ∈ l2, evEq x y = false)) :
+    Guard ls :=
+  guard_of_disjoint h
+
+/-- under the guard no occurrence is popped twice, whatever the script -/
+theorem collapse (R : Refines ops abs I) (hsrc : ∀ s, I s → NonNul (abs s) ∧ Sorted (abs s))
+    (m : Mux σ) (hm : MuxInv abs I m) (hg : Guard (rem abs m)) (sc : List Bool) :
+    ((popped (muxOps ops) m sc).filter nn).Pairwise (fun a b => evEq a b = false) ∧
+    ((popped (muxOps ops) m sc).filter nn).Nodup := by
+  rw [(mux_script R (fun s hs => (hsrc s hs).1) sc m hm).2.1]
+  have := lpopped_notwin sc _ (rem_valid hsrc hm) hg
+  exact ⟨this, this.nodup⟩
+
+/-- the reference merge: duplicate-free (even up to duration), sorted, nul-free, and its events
+are exactly the events of the sources with identical ones collapsed to one -/
+theorem merge_spec {ls : List (List Event)} (hv : ∀ l ∈ ls, NonNul l ∧ Sorted l) (hg : Guard ls) :
+    NoTwin (mergeRef ls) ∧ (mergeRef ls).Nodup ∧ Sorted (mergeRef ls) ∧ NonNul (mergeRef ls) ∧
+    (∀ e ∈ mergeRef ls, ∃ l ∈ ls, e ∈ l) ∧
+    (∀ l ∈ ls, ∀ x ∈ l, ∃ e ∈ mergeRef ls, evEq e x = true) :=
+  ⟨mergeRef_notwin hv hg, (mergeRef_notwin hv hg).nodup, mergeRef_sorted hv, mergeRef_nonnul hv,
+   mergeRef_sub hv, mergeRef_complete hv⟩
+
+/-- if an occurrence determines its event (durations agree), membership is plain set union -/
+theorem merge_mem_iff {ls : List (List Event)} (hv : ∀ l ∈ ls, NonNul l ∧ Sorted l)
+    (hd : ∀ l ∈ ls, ∀ l' ∈ ls, ∀ a ∈ l, ∀ b ∈ l', evEq a b = true → a = b) (e : Event) :
+    e ∈ mergeRef ls ↔ ∃ l ∈ ls, e ∈ l := by
+  constructor
+  · exact mergeRef_sub hv e
+  · intro ⟨l, hl, he⟩
+    obtain ⟨e', he', hq⟩ := mergeRef_complete hv l hl e he
+    obtain ⟨l', hl', hm'⟩ := mergeRef_sub hv e' he'
+    rw [← hd l' hl' l hl e' hm' e he hq]; exact he'
+
+/-- the compositional statement: under the guard the mux refines the reference merge, and this
+merge is again a nul-free, sorted, twin-free list — a source for the next level -/
+theorem collapse_refines (R : Refines ops abs I) (hsrc : ∀ s, I s → NonNul (abs s) ∧ Sorted (abs s)) :
+    Refines (muxOps ops) (muxAbs abs) (fun m => MuxInv abs I m ∧ Guard (rem abs m)) ∧
+    ∀ m, (MuxInv abs I m ∧ Guard (rem abs m)) →
+      NonNul (muxAbs abs m) ∧ Sorted (muxAbs abs m) ∧ NoTwin (muxAbs abs m) :=
+  ⟨mux_refines_of R hsrc Guard (fun _ g => g.1) (fun _ _ h g => Guard.suf h g),
+   fun _ h => ⟨mergeRef_nonnul (rem_valid hsrc h.1), mergeRef_sorted (rem_valid hsrc h.1),
+     mergeRef_notwin (rem_valid hsrc h.1) h.2⟩⟩
+
+/-- a mux of muxes: the theorem applied twice.  The outer guard speaks about the inner merges
+(`rem (muxAbs abs) M`); these need not hold one UID per instant, `guard_of_disjoint_sources`
+gives a condition that fits them. -/
+theorem mux_of_mux (R : Refines ops abs I) (hsrc : ∀ s, I s → NonNul (abs s) ∧ Sorted (abs s)) :
+    Refines (muxOps (muxOps ops)) (muxAbs (muxAbs abs))
+      (fun M => MuxInv (muxAbs abs) (fun m => MuxInv abs I m ∧ Guard (rem abs m)) M ∧
+        Guard (rem (muxAbs abs) M)) :=
+  (collapse_refines (collapse_refines R hsrc).1
+    (fun m h => ⟨((collapse_refines R hsrc).2 m h).1, ((collapse_refines R hsrc).2 m h).2.1⟩)).1
+
+end
+
+/-! ### unbounded sources: the prefix lemma -/
+
+/-- The answers up to an instant depend only on the parts of the sources up to that instant.
+Two muxes — possibly over different kinds of sub-streams, e.g. an unbounded rule stream and the
+array of its first occurrences — whose source lists agree on the events with key ≤ `K`
+(`Agree K`: pointwise a common part with keys ≤ `K`, then events later than `K` or nothing) give
+the same first `n` answers to any script, as long as these answers are events with key ≤ `K`. -/
+theorem prefix_determines {σ₁ σ₂ : Type} {ops₁ : Ops σ₁} {ops₂ : Ops σ₂}
+    {abs₁ : σ₁ → List Event} {abs₂ : σ₂ → List Event} {I₁ : σ₁ → Prop} {I₂ : σ₂ → Prop}
+    (R₁ : Refines ops₁ abs₁ I₁) (h₁ : ∀ s, I₁ s → NonNul (abs₁ s) ∧ Sorted (abs₁ s))
+    (R₂ : Refines ops₂ abs₂ I₂) (h₂ : ∀ s, I₂ s → NonNul (abs₂ s) ∧ Sorted (abs₂ s))
+    (m₁ : Mux σ₁) (hm₁ : MuxInv abs₁ I₁ m₁) (m₂ : Mux σ₂) (hm₂ : MuxInv abs₂ I₂ m₂)
+    (K : Nat) (ha : Agree K (rem abs₁ m₁) (rem abs₂ m₂)) (sc : List Bool) (n : Nat)
+    (h : ∀ e ∈ (answers (muxOps ops₁) m₁ sc).take n, e.isNul = false ∧ key e.from_ ≤ K) :
+    (answers (muxOps ops₂) m₂ sc).take n = (answers (muxOps ops₁) m₁ sc).take n := by
+  rw [(mux_script R₁ (fun s hs => (h₁ s hs).1) sc m₁ hm₁).1] at h ⊢
+  rw [(mux_script R₂ (fun s hs => (h₂ s hs).1) sc m₂ hm₂).1]
+  exact lanswers_prefix sc _ _ n ha h
+
+/-- in particular, for array sources: appending to any of them events later than `K` does not
+change the answers that are events with key ≤ `K` -/
+theorem append_later_events (ls ext : List (List Event)) (hlen : ls.length = ext.length)
+    (hv : ∀ l ∈ ls, NonNul l ∧ Sorted l) (hv' : ∀ l ∈ List.zipWith (· ++ ·) ls ext, NonNul l ∧ Sorted l)
+    (K : Nat) (hx : ∀ x ∈ ext, ∀ e ∈ x, K < key e.from_) (sc : List Bool) (n : Nat)
+    (h : ∀ e ∈ (answers (muxOps listOps) (Mux.make ls) sc).take n, e.isNul = false ∧ key e.from_ ≤ K) :
+    (answers (muxOps listOps) (Mux.make (List.zipWith (· ++ ·) ls ext)) sc).take n
+      = (answers (muxOps listOps) (Mux.make ls) sc).take n := by
+  have R := (lists_are_sources).1
+  refine prefix_determines R (fun _ h => h) R (fun _ h => h) (Mux.make ls) (MuxInv.make hv)
+    (Mux.make (List.zipWith (· ++ ·) ls ext)) (MuxInv.make hv') K ?_ sc n h
+  rw [rem_make, rem_make, List.map_id, List.map_id]
+  exact agree_append K ls ext hlen (fun l hl => (hv l hl).2) hx
+
+/-! ### 5. the guard is necessary (finding D42), and `Nodup` alone is not the right guard -/
+
+/-- packed 2020-01-01T09:00:00.000 -/
+def t0 : Nat := 0x07e4010109000000
+
+/-- D42: two sources listing the same two simultaneous events in different order — all sources
+sorted and duplicate-free — and `⟨t0,0,1⟩` is delivered twice: four pops answer three events
+and then nul. -/
+theorem D42_witness :
+    popped (muxOps listOps) (Mux.make [[⟨t0,0,1⟩, ⟨t0,0,2⟩], [⟨t0,0,2⟩, ⟨t0,0,1⟩]]) [true, true, true, true]
+      = [⟨t0,0,1⟩, ⟨t0,0,2⟩, ⟨t0,0,1⟩, Event.nul] := by decide
+
+/-- the class of D42 as a predicate: the guard of the collapse; the witness violates it -/
+def NoHiddenTwin (ls : List (List Event)) : Prop := Guard ls
+
+theorem D42_is_unguarded :
+    ¬ NoHiddenTwin [[⟨t0,0,1⟩, ⟨t0,0,2⟩], [⟨t0,0,2⟩, ⟨t0,0,1⟩]] := by
+  unfold NoHiddenTwin Guard Shared Lone NoTwin; decide
+
+/-- with plain `Nodup` in the guard (events compared with their duration) the collapse fails:
+one UID, one instant, two durations -/
+theorem nodup_guard_insufficient :
+    popped (muxOps listOps) (Mux.make [[⟨t0,0,1⟩], [⟨t0,5,1⟩, ⟨t0,0,1⟩]]) [true, true, true]
+      = [⟨t0,0,1⟩, ⟨t0,0,1⟩, Event.nul] := by decide
+
+/-- an event may be lost as such when its twin has another duration: completeness holds up to
+identity of (uid, start) only -/
+theorem complete_only_up_to_duration :
+    popped (muxOps listOps) (Mux.make [[⟨t0,0,1⟩], [⟨t0,5,1⟩]]) [true, true]
+      = [⟨t0,0,1⟩, Event.nul] := by decide
+
+/-- without the twin-freeness of the sources a peek is not pure: here the second answer is
+`⟨t0,0,1⟩` again if the first call is a pop, but `⟨t0+1,0,1⟩` if a peek came first -/
+theorem peek_impure_with_twins :
+    answers (muxOps listOps) (Mux.make [[⟨t0,0,1⟩], [⟨t0,0,1⟩, ⟨t0,0,1⟩, ⟨t0+1,0,1⟩]]) [true, true]
+      = [⟨t0,0,1⟩, ⟨t0,0,1⟩] ∧
+    answers (muxOps listOps) (Mux.make [[⟨t0,0,1⟩], [⟨t0,0,1⟩, ⟨t0,0,1⟩, ⟨t0+1,0,1⟩]]) [false, true, true]
+      = [⟨t0,0,1⟩, ⟨t0,0,1⟩, ⟨t0+1,0,1⟩] := by decide
+
+-- the hypotheses are inhabited by a non-trivial instance (a shared occurrence, a simultaneous
+-- other UID in another source, a collapse), and the reference merge is what one expects
+example : (∀ l ∈ [[(⟨t0,0,1⟩ : Event), ⟨t0+1,0,1⟩], [⟨t0,0,1⟩, ⟨t0+1,0,2⟩]], NonNul l ∧ Sorted l) := by
+  unfold NonNul Sorted; decide
+example : Guard [[(⟨t0,0,1⟩ : Event), ⟨t0+1,0,1⟩], [⟨t0,0,1⟩, ⟨t0+1,0,2⟩]] := by
+  unfold Guard Shared Lone NoTwin; decide
+example : mergeRef [[⟨t0,0,1⟩, ⟨t0+1,0,1⟩], [⟨t0,0,1⟩, ⟨t0+1,0,2⟩]]
+    = [⟨t0,0,1⟩, ⟨t0+1,0,1⟩, ⟨t0+1,0,2⟩] := by decide
 
 end C03
